@@ -76,7 +76,9 @@ def run_cases(mod, tier, seed, shard, nshards, deadline):
         case.setdefault("idx", idx)
         try:
             out = mod.run_case(case)
-        except Exception:  # a harness crash is never a verdict about the repository
+        except (KeyboardInterrupt, SystemExit):
+            raise
+        except BaseException:  # a harness crash is never a verdict about the repository
             res["errors"].append({"case": case, "traceback": traceback.format_exc()[-3000:]})
             continue
         res["evaluations"] += out.get("evaluations", 1)
@@ -195,7 +197,7 @@ def main(argv=None):
             text = log.read()
             log.close()
             if rc != 0 or not os.path.exists(out):
-                inconclusive.append("shard %d %s: %s" % (i, "hit the wall-clock watchdog" if rc is None else "exited %s" % rc, text[-1500:]))
+                inconclusive.append("shard %d %s: %s" % (i, "hit the wall-clock watchdog" if rc is None else "exited %s" % rc, text[-700:]))
                 continue
             with open(out) as f:
                 part = json.load(f)
@@ -212,6 +214,8 @@ def main(argv=None):
 
     known_mech, hits, new = classify(prop, total["violations"], known)
     stats = total["stats"]
+    if len(inconclusive) > 3:
+        inconclusive = inconclusive[:3] + ["(%d more shard failures)" % (len(inconclusive) - 3)]
     for e in total["errors"][:3]:
         inconclusive.append("harness error in case %s: %s" % (json.dumps(e["case"], default=repr)[:300], e["traceback"][-800:]))
     for key, floor in getattr(mod, "FLOORS", {}).get(args.tier, {}).items():
